@@ -26,12 +26,16 @@ ParSub == <<L(<<"a">>, "par", "t")>>      \* (round 4) a compute function that r
 SubLinkSets == {ParSub, <<L(<<"a", "b">>, "lin", "t")>>, <<L(<<"g">>, "grp", "mp")>>, <<L(<<"a", "b">>, "lin", "mp"), L(<<"g">>, "grp", "t")>>}
 \* (round 4) the parser that declares the links is used through ActionParser
 ApLinkSets == {<<L(<<"a">>, "one", "t")>>, <<L(<<"a", "b">>, "lin", "mp")>>, <<L(<<"b">>, "one", "mp"), L(<<"a">>, "par", "t")>>}
-Shapes == {[links |-> ls, mkind |-> mk, req |-> rq, sub |-> sb, ap |-> ap] :
-             ls \in LinkSets, mk \in {"init", "list", "grp"}, rq \in BOOLEAN, sb \in BOOLEAN, ap \in BOOLEAN}
+\* (round 5) the target is a mandatory field of a nested dataclass / class value of a class argument
+NLinkSets == {<<L(<<"a">>, "id", "np")>>, <<L(<<"a", "b">>, "lin", "np")>>}
+Shapes == {[links |-> ls, mkind |-> mk, nkind |-> nk, req |-> rq, sub |-> sb, ap |-> ap] :
+             ls \in LinkSets \cup NLinkSets, mk \in {"init", "list", "grp"}, nk \in {"dco", "dcp", "deep"}, rq \in BOOLEAN, sb \in BOOLEAN, ap \in BOOLEAN}
 WideLinkSets == {<<L(<<"sl", "a">>, "linp", "t")>>, <<L(<<"o">>, "paro", "mp")>>}
 ShapeOK(sh) == /\ (~HasM(sh) => sh.mkind = "init")
+               /\ (~HasN(sh) => sh.nkind = "dco")
+               /\ (HasN(sh) => (~sh.req /\ ~sh.ap /\ ((sh.sub \/ Len(sh.links[1].srcs) > 1) => sh.nkind = "dco")))
                /\ (sh.links \in WideLinkSets => Wide)
-               /\ (sh.sub => sh.links \in SubLinkSets)
+               /\ (sh.sub => sh.links \in SubLinkSets \cup {<<L(<<"a">>, "id", "np")>>})
                /\ (sh.ap => (sh.links \in ApLinkSets /\ ~sh.sub /\ sh.mkind \in {"init", "grp"}))
                /\ ((sh.links \in OptLinkSets /\ HasM(sh)) => sh.mkind \in {"init", "grp"})
 TheShapes == {sh \in Shapes : ShapeOK(sh)}
@@ -82,7 +86,11 @@ TgtItems(sh, chans) ==
 \* (round 4) a default config file of the parser gives a source / the target itself
 DcfLinkSets == {<<L(<<"a">>, "par", "t")>>, <<L(<<"a", "b">>, "lin", "t")>>, <<L(<<"b">>, "one", "mp"), L(<<"a">>, "par", "t")>>}
 DcfItems(sh, chans) == IF sh.links \in DcfLinkSets /\ ~sh.sub /\ ~sh.ap /\ "argv" \in chans THEN {It("dcf", "a", Int(3)), It("dcf", "t", Int(5))} ELSE {}
-ItemsOf(sh, chans) == SrcItems(sh, chans) \cup TgtItems(sh, chans) \cup DcfItems(sh, chans)
+R3 == [x \in {"r"} |-> Int(3)]
+S5R3 == [x \in {"seed", "r"} |-> IF x = "seed" THEN Int(5) ELSE Int(3)]
+NSpec(inner) == [k |-> "nspec", inner |-> inner]
+NTgtItems(sh, chans) == IF ~HasN(sh) THEN {} ELSE {It(ch, "n", NSpec(inn)) : ch \in chans \ {"env"}, inn \in (IF sh.nkind = "deep" THEN {} ELSE {NoneV}) \cup {InV(R3), InV(S5R3)}}   \* (deep: aug is a mandatory class parameter -- a spec without it is an invalid input)
+ItemsOf(sh, chans) == SrcItems(sh, chans) \cup TgtItems(sh, chans) \cup DcfItems(sh, chans) \cup NTgtItems(sh, chans)
 
 \* parse_args: environment variables are read before the command line, whatever the order of the call
 \* (and the default config file before the environment)
@@ -90,10 +98,11 @@ EnvFirst(s) == \A i, j \in DOMAIN s : /\ ((i < j /\ s[j].chan = "env") => s[i].c
                                        /\ ((i < j /\ s[j].chan = "dcf") => s[i].chan = "dcf")
 \* --s.limit on a class that has no such parameter is an invalid input (it fails for a reason that has nothing to do
 \* with links): such sequences are left out
+OneN(s) == \A x, y \in DOMAIN s : (x # y /\ s[x].key = "n") => s[y].key # "n"
 NoBadSl(s) == ~(\E i, j \in DOMAIN s : s[i].key = "sl" /\ s[j].key = "s" /\ s[j].val.k = "spec" /\ s[j].val.c = "SrcNoL")
 NoDupEnv(s) == \A i, j \in DOMAIN s : (i # j /\ s[i].chan \in {"env", "dcf"}) => s[i].key # s[j].key \/ s[j].chan # s[i].chan
 Bound(sh) == IF sh.links \in OptLinkSets THEN OptItems ELSE IF Len(sh.links) > 1 \/ (sh.sub /\ sh.links # ParSub) \/ (sh.ap /\ HasM(sh)) THEN PairItems ELSE MaxItems
-ArgsSeqs(sh) == {s \in UNION {[1..n -> ItemsOf(sh, {"env", "cfg", "argv"})] : n \in 0..Bound(sh)} : EnvFirst(s) /\ NoDupEnv(s) /\ NoBadSl(s)}
+ArgsSeqs(sh) == {s \in UNION {[1..n -> ItemsOf(sh, {"env", "cfg", "argv"})] : n \in 0..Bound(sh)} : EnvFirst(s) /\ NoDupEnv(s) /\ NoBadSl(s) /\ OneN(s)}
 \* parse_object: one dict; keys are distinct, the order is immaterial (one representative)
 ObjSeqs(sh) == {s \in UNION {[1..n -> ItemsOf(sh, {"obj"})] : n \in 1..Bound(sh)} :
                   /\ \A i, j \in DOMAIN s : i # j => (s[i].key # s[j].key /\ {s[i].key, s[j].key} # {"m", "mq"} /\ {s[i].key, s[j].key} # {"m", "mp"}
